@@ -341,22 +341,48 @@ class FiltV:
         return f"<filtered {' & '.join(norm(c[0])[:50] for c in self.conds)}>"
 
 
+class ParamV:
+    """another parameter of the chooser (e.g. the requested type)"""
+    def __init__(self, name: str):
+        self.name = name
+
+    def __repr__(self):
+        return f"<parameter {self.name}>"
+
+
+class OrList:
+    """value of  A or B  over lists: A when it is non-empty, otherwise B"""
+    def __init__(self, parts: list):
+        self.parts = parts
+
+    def with_truth(self, polarity: bool) -> "OrList":
+        return self
+
+    def __repr__(self):
+        return " or ".join(map(repr, self.parts))
+
+
 class ChoiceOf:
     def __init__(self, lst: Any, node: ast.AST):
         self.lst, self.node = lst, node
 
 
 def _decider_paths(ctx: Ctx, f: FunctionInfo):
-    """abstractly interpret choose_production_alternatives: offered list -> filtered lists -> random.choice(<list>)"""
+    """abstractly interpret a chooser: offered list -> filtered lists -> random.choice(<list>) / <list>[index]"""
     from ..absint import interp, SeqV
     from ..inline import make_inline_hook
     env = Env(Facts())
     d, M, c = Lin.sym("d"), Lin.sym("M"), Lin.sym("c")
     env.facts.ints |= {"d", "M", "c"}
-    alts_p, ctx_p = f.params[2], f.params[3]
+    ps = [p_ for p_ in f.params if p_ != "self"]
+    alts_p = "alternatives" if "alternatives" in ps else (ps[-2] if len(ps) >= 2 else ps[0])
+    ctx_p = "ctx" if "ctx" in ps else ps[-1]
     env.vars["self.max_depth"] = M
     env.vars[f"{ctx_p}.depth"] = c
     env.vars[alts_p] = ListSrc(alts_p)
+    for p_ in ps:
+        if p_ not in (alts_p, ctx_p):
+            env.vars[p_] = ParamV(p_)
 
     def call_hook(e_: Env, call: ast.Call):
         nm = call_name(call)
@@ -391,13 +417,27 @@ def _decider_paths(ctx: Ctx, f: FunctionInfo):
         if isinstance(sub.slice, ast.Slice):
             return None
         v = evaluate(e_, sub.value)
-        if isinstance(v, (ListSrc, FiltV)):
+        if isinstance(v, (ListSrc, FiltV, OrList)):
             return ChoiceOf(v, sub)   # an element of that list
+        if isinstance(parent(sub), ast.Return):
+            return ChoiceOf(v, sub)   # what is returned is an element of some other container
+        return None
+
+    def bool_hook(e_: Env, b: ast.BoolOp):
+        if not isinstance(b.op, ast.Or):
+            return None
+        vals = [evaluate(e_, v) for v in b.values]
+        if all(isinstance(v, (ListSrc, FiltV, OrList)) or (isinstance(v, SeqV)) for v in vals) and any(isinstance(v, (ListSrc, FiltV, OrList)) for v in vals):
+            parts = []
+            for v in vals:
+                parts += v.parts if isinstance(v, OrList) else [v]
+            return OrList(parts)
         return None
 
     env.hooks.append(call_hook)
     env.sub_hooks.append(sub_hook)
     env.comp_hooks.append(comp_hook)
+    env.bool_hooks.append(bool_hook)
     env.hooks.append(make_inline_hook(ctx.prog, f.cls, f.module, skip=("get_distance_to_terminal",)))
     outs = interp(f.node.body, env)
     return outs, (d, M, c)
@@ -425,27 +465,19 @@ def filter_rule(ctx: Ctx, rid: str, require_equivalence_everywhere: bool = False
         if not reads_limit:
             continue
         outs, (d, M, c) = _decider_paths(ctx, f)
-        sound_bad = None
-        complete_bad = None
-        undecided = None
+        st_ = {"sound": None, "complete": None, "und": None}
         seen_lists: set[str] = set()
         npaths = 0
-        for o in outs:
-            if o.kind == "raise":
-                continue
-            if o.kind != "return" or not isinstance(o.value, ChoiceOf):
-                undecided = f"a path ends with {o.kind} / a value that is not random.choice(<list>) [{'; '.join(o.conds)[:80]}]"
-                continue
-            lst = o.value.lst
-            npaths += 1
+
+        def _check_one(lst, o):
             if isinstance(lst, SeqV) and isinstance(lst.length, Lin) and lst.length.is_const() and lst.length.const == 0:
-                continue   # choice([]) is reached only when the (infeasible) 'non-empty' branch of an empty literal is taken
+                return   # choice([]) is reached only when the (infeasible) 'non-empty' branch of an empty literal is taken
             if isinstance(lst, ListSrc):
-                sound_bad = sound_bad or ("the offered alternatives are handed to random.choice unfiltered", None, o)
-                continue
+                st_["sound"] = st_["sound"] or ("the offered alternatives are handed to random.choice unfiltered", None, o)
+                return
             if not isinstance(lst, FiltV):
-                undecided = f"the list handed to random.choice is not followed ({lst!r})"
-                continue
+                st_["und"] = f"the list handed to random.choice is not followed ({lst!r})"
+                return
             seen_lists.add(repr(lst))
             # --- soundness: each combination of disjuncts entails d <= M - c
             combos = [[]]
@@ -459,28 +491,45 @@ def filter_rule(ctx: Ctx, rid: str, require_equivalence_everywhere: bool = False
                     assume(e2, atom, True)
                 if not entails_ge0(facts, M - c - d):
                     wit = find_model(facts, M - c - d)
-                    sound_bad = sound_bad or (f"the condition '{' and '.join(norm(a) for a, _ in combo)[:160]}' admits an alternative whose "
-                                              f"minimum depth exceeds max_depth - ctx.depth (e.g. {wit}): the depth limit can be exceeded / "
-                                              f"creation fails deeper down", wit, o)
+                    st_["sound"] = st_["sound"] or (f"the condition '{' and '.join(norm(a) for a, _ in combo)[:160]}' admits an alternative whose "
+                                                    f"minimum depth exceeds max_depth - ctx.depth (e.g. {wit}): the depth limit can be exceeded / "
+                                                    f"creation fails deeper down", wit, o)
             # --- completeness unless known non-empty
             if lst.nonempty is not True:
                 facts = o.env.facts.copy()
                 facts.add_ge(M - c, d)
-                ok_all = True
                 for cond, snap in lst.conds:
                     e2 = snap.copy()
                     e2.facts = facts
                     if truth(e2, cond).v is not True:
-                        ok_all = False
                         wit = None
                         if isinstance(cond, ast.Compare) and len(cond.ops) == 1:
                             a_, b_ = evaluate(e2, cond.left), evaluate(e2, cond.comparators[0])
                             vd = prove_cmp(facts, a_, cond.ops[0], b_) if isinstance(a_, Lin) and isinstance(b_, Lin) else None
                             wit = vd.witness if vd is not None else None
-                        complete_bad = complete_bad or (f"on the path [{'; '.join(o.conds)[:100]}] the last-resort list keeps only alternatives with "
-                                                        f"'{norm(cond)[:100]}', which is stricter than 'distance <= max_depth - ctx.depth' (e.g. {wit}): "
-                                                        f"an alternative that exactly fits the remaining depth is pruned, so limits equal to the "
-                                                        f"grammar minimum fail and valid programs become unreachable", wit, o)
+                        st_["complete"] = st_["complete"] or (
+                            f"on the path [{'; '.join(o.conds)[:100]}] the last-resort list keeps only alternatives with "
+                            f"'{norm(cond)[:100]}', which is stricter than 'distance <= max_depth - ctx.depth' (e.g. {wit}): "
+                            f"an alternative that exactly fits the remaining depth is pruned, so limits equal to the "
+                            f"grammar minimum fail and valid programs become unreachable", wit, o)
+
+        for o in outs:
+            if o.kind == "raise":
+                continue
+            if o.kind != "return" or not isinstance(o.value, ChoiceOf):
+                st_["und"] = f"a path ends with {o.kind} / a value that is not random.choice(<list>) [{'; '.join(o.conds)[:80]}]"
+                continue
+            lst = o.value.lst
+            npaths += 1
+            if isinstance(lst, OrList):
+                # A or B: every part must be sound; the last part is what remains when the others are empty
+                parts = [p_ for p_ in lst.parts if not isinstance(p_, SeqV)]
+                todo = [p_.with_truth(True) if isinstance(p_, FiltV) else p_ for p_ in parts[:-1]] + parts[-1:]
+            else:
+                todo = [lst]
+            for one in todo:
+                _check_one(one, o)
+        sound_bad, complete_bad, undecided = st_["sound"], st_["complete"], st_["und"]
         n += npaths
         if npaths == 0:
             ctx.ob(rid, f, f.node, f"{cls.name}: every alternative that can be chosen fits the remaining depth", None,
